@@ -63,13 +63,39 @@ CLAIMS = [
                       "mixed-revision results is argued from lock order and scope only. Known finding F6 (pending slot, two critical "
                       "sections) is listed.",
     },
+    {
+        "id": "C05",
+        "technique": "static analysis: arm-table evaluation over typed HIR (resolved core methods, operand provenance), boolean truth table of the Float32 acceptance predicate, MIR cast inventory",
+        "level_text": "The numeric semantics is a finite table of arms, each a single call of a core method whose semantics is the "
+                      "specification. All arms are evaluated from the macro-expanded, type-resolved HIR: 8x5 wrapping_* calls at the carrier "
+                      "read from the ADT with operands in order, comparison helpers (==,<,> in order), Branch::select = if c {a} else {b} fed "
+                      "slice positions 2,3, float ops via from_bits/IEEE operator/to_bits at the arm's width, renderers, "
+                      "IntegerLiteral::with_type = TryInto<carrier> (exact), FloatLiteral::with_type's predicate truth table = !A || B, the "
+                      "checker's literal gates (Some edge stored, None edge OutOfRange, defaults Int64/Float64), no numeric cast. This "
+                      "decides the property for the Rust side completely (171 obligations); no operand enumeration is needed.",
+        "level_note": "Trusted: core's wrapping_*, PartialOrd, IEEE operators, TryInto, ToString. Native back ends (runtime/stub.rs) are "
+                      "outside the cargo workspace and not covered.",
+    },
+    {
+        "id": "C06",
+        "technique": "static analysis: symbolic evaluation of the five role tables for all 126 roles and cross-table agreement; continuation-application arity analysis; callee/panic/handle-table inventories from MIR and HIR",
+        "level_text": "Statically evaluates arity(), for_role(), host_name(), stack-IR for_known_role() and the invoke dispatch for every "
+                      "role and checks they agree with the slice pattern and the continuation applications of the dispatched interpreter "
+                      "function (arity, per-position atom kinds, declared result atom, every continuation applied to exactly as many "
+                      "arguments as its classifier has arrows, Branch::select order). Also decided: Utf8String indexes by scalars only, the "
+                      "role functions' panic inventory is exactly {shape default, wrapping_div/rem, six legacy expects}, handle ids are "
+                      "never reissued and the handle tables are touched only by open/close/lookup with closed() on a miss, every "
+                      "io::Result reaches the error continuation, the classifier matcher compares every decisive case and rejects by default.",
+        "level_note": "NOT decided: behaviour of std on concrete strings and files, the .zy declarations in lib/std/builtin (validated at "
+                      "link time by the matcher checked here), runtime/stub.rs (outside the workspace).",
+    },
 ]
 
 _PENDING = "check not built yet in this round (static rule designed in DESIGN.md, implementation pending)"
 NOT_APPLICABLE = [
     {"property_id": "C20", "reason": "behavioural equation through a 2800-line type-directed translation; no clause is both visible in the shape of elaborate/monadic/* and a necessary condition of the equation (DESIGN.md C20)"},
 ] + [{"property_id": p, "reason": _PENDING} for p in
-     ["C01", "C02", "C03", "C04", "C05", "C06", "C07", "C08", "C09", "C12", "C13", "C14", "C18", "C19"]]
+     ["C01", "C02", "C03", "C04", "C07", "C08", "C09", "C12", "C13", "C14", "C18", "C19"]]
 
 NOTES = ("Static analysis only: every verdict is computed from /repo's current working tree by the zyq rustc driver "
          "(facts) and repository-specific rules; nothing executes zydeco. Exit 2 (no VIOLATION line) means the tree could not "
